@@ -71,6 +71,10 @@ def _tab_names(sysname, tier):
 
 def cases(tier, seed):
     systems = ("haldane", "chiral", "zoo") if tier == "quick" else ("haldane", "chiral", "zoo", "kanemele")
+    if tier == "quick":
+        # a group with an operation that reverses k (time reversal): the symmetry copies of an irreducible point land on -Rk
+        N = (4, 4, 1)          # (on a 2x2 mesh every k equals -k)
+        yield {"sys": "kanemele", "variant": "irred", "N": list(N), "ibands": None, "tabs": _tab_names("kanemele", tier), "libs": ["fftw"]}
     for sysname in systems:
         nb = NB[sysname]
         ibs = [None, [0], [nb - 1, 0]]
